@@ -17,10 +17,14 @@ def plan(tier, seed):
             'absent': [dict(n=3, m=2, labels='ints', schemes='two_b', per=6), dict(n=2, m=3, labels='ints', schemes='one_b', per=4),
                        dict(n=1, m=2, labels='ints', schemes='two')],
             'absent_enum': [dict(n=3, m=2, labels='ints', schemes='all'), dict(n=2, m=3, labels='ints', schemes='six'),
-                            dict(n=3, m=2, labels=alt, schemes='two')],
+                            dict(n=3, m=2, labels=alt, schemes='two'),
+                            dict(n=3, m=3, labels='ints', schemes='cycle', per=60, nontrivial_only=True),
+                            dict(space='ext43', labels='ints', schemes='ext', per=300)],
             'stub': [dict(n=3, m=2, labels='ints', schemes='all'), dict(n=3, m=3, labels='ints', schemes='one', per=60),
                      dict(n=4, m=2, labels='ints', schemes='one_b', per=60), dict(n=3, m=2, labels=alt, schemes='two'),
-                     dict(n=1, m=2, labels='ints', schemes='two')],
+                     dict(n=1, m=2, labels='ints', schemes='two'),
+                     dict(n=3, m=3, labels='ints', schemes='cycle', per=60, nontrivial_only=True),
+                     dict(space='ext43', labels='ints_rev', schemes='ext', per=300)],
         }
     else:
         by_mode = {
@@ -28,11 +32,13 @@ def plan(tier, seed):
                        dict(n=4, m=2, labels='ints', schemes='one_b', per=30, maxk=256, components_only=True)],
             'absent_enum': [dict(n=4, m=2, labels='ints', schemes='all', per=60), dict(n=3, m=3, labels='ints', schemes='all', per=60),
                             dict(n=5, m=2, labels='ints', schemes='one_b', per=2000, maxk=256),
-                            dict(n=4, m=3, labels='ints', schemes='one', per=4000, maxk=512)],
+                            dict(n=4, m=3, labels='ints', schemes='one', per=4000, maxk=512),
+                            dict(space='ext43', ext='all27', labels='ints', schemes='ext', per=100)],
             'stub': [dict(n=4, m=2, labels='ints', schemes='all', per=60), dict(n=3, m=3, labels='ints', schemes='all', per=60),
                      dict(n=5, m=2, labels='ints', schemes='four', per=2000, maxk=256),
                      dict(n=4, m=3, labels='ints', schemes='two', per=4000, maxk=512),
-                     dict(n=4, m=2, labels=alt, schemes='two', per=60)],
+                     dict(n=4, m=2, labels=alt, schemes='two', per=60),
+                     dict(space='ext43', ext='all27', labels='ints', schemes='ext', per=100)],
         }
     phases = cross.std_phases(by_mode)
     if tier == 'thorough':
@@ -191,6 +197,10 @@ def oracle(ctx, info):
         ctx.count('runs_under_a_non_default_optimal_vertex')
     if opt > 0:
         ctx.nontrivial += 1
+    if refmodel.nontrivial_components(info.universe, info.ref.table):
+        ctx.count('runs_with_a_component_that_cannot_be_all_tied')
+        if len(refmodel.components(info.universe, info.ref.table)) > 1:
+            ctx.count('runs_with_such_a_component_next_to_other_components')
     ctx.outcome((name, tuple(got)))
     if ctx.evals % 5000 == 1:
         ctx.sample(info.case(result=got, optimum=opt))
@@ -264,6 +274,12 @@ def run_shard(sh):
         run_family(ctx, sh)
     else:
         flt = None
+        if sh.get('nontrivial_only'):
+            schemes = cross.SCHEME_KINDS[sh['schemes']]
+
+            def flt(ds):
+                u = spaces.universe_of(ds)
+                return any(refmodel.nontrivial_components(u, refmodel.ref_table(u, ds, s[0], s[1])) for s in schemes)
         if sh.get('components_only'):
             flt = lambda ds: len(ds) == 2 and len(spaces.universe_of(ds)) == 4
         cross.run_block(ctx, sh, _lib['mode'], _lib['configs'], oracle, ds_filter=flt)
@@ -288,6 +304,8 @@ def summarize(tier, seed, merged, phases):
     guards = [('several minimisers all returned', c.get('cases_with_several_minimisers_all_returned', 0)),
               ('models checked', c.get('models_checked_against_all_rankings', 0)),
               ('non-default optimal vertex', c.get('runs_under_a_non_default_optimal_vertex', 0)),
-              ('documented incompatible arguments', c.get('documented_incompatible_arguments', 0))]
+              ('documented incompatible arguments', c.get('documented_incompatible_arguments', 0)),
+              ('non-trivial component', c.get('runs_with_a_component_that_cannot_be_all_tied', 0)),
+              ('non-trivial component next to others', c.get('runs_with_such_a_component_next_to_other_components', 0))]
     return cov, ['real CPLEX is never run: the stand-in returns exactly the optimal points (no time limit / mip-gap effects)',
                  'CBC is trusted as exact on these <= 30-variable models and cross-checked by the enumerating solver'], guards
